@@ -38,7 +38,6 @@ FETCH = "timeseries.battery_pool._component_metric_fetcher"
 METRIC = {"ComponentMetricId.CAPACITY": "capacity", "ComponentMetricId.SOC": "soc",
           "ComponentMetricId.SOC_LOWER_BOUND": "lower", "ComponentMetricId.SOC_UPPER_BOUND": "upper"}
 ROLES = set(METRIC.values())
-SET_WRAPPERS = ("sorted", "list", "tuple", "set", "frozenset")
 
 CAP, SOC, LO, UP = (Poly.atom(x) for x in ("capacity", "soc", "lower", "upper"))
 W = CAP * (UP - LO)
